@@ -20,7 +20,10 @@ from common import (
     val_in,
     val_not,
     call_key,
+    simp,
+    sstr,
 )
+from core import dominators
 
 
 def _need(fns, what, rid):
@@ -926,100 +929,250 @@ def c18_u4(ctx):
 
 
 # ================================================================ C13-Q2 / Q3
-@rule("C13", "C13-Q2", 1, "requests are processed in list order inside finalisation, the stop-after-first-failure flag is sticky, one response per request")
+@rule("C13", "C13-Q2", 1, "requests are processed in list order inside finalisation, nothing is processed after a response that is_fail(), skipped requests are reported not-performed only after a failure, one response per request")
 def c13_q2(ctx):
+    """Shape-independent: the rule follows the iterator over meta.filestore_requests, the
+    element each next() yields, the is_fail() of each process_request result and the branches on
+    it; it does not depend on variable names or on whether a flag or a break stops processing."""
     f = ctx.one("C13-Q2", "RecvTransaction::finalize_receive")
     eb = ExprBuilder(ctx.prog, f, user_stop=True)
-    ebf = ExprBuilder(ctx.prog, f)
     problems = []
-    # the iterator: into_iter(&meta.filestore_requests) with no adaptor
-    iters = [x for x in eb.var_defs("iter")]
-    it_ok = [x for x in iters if expr_str(x) == "IntoIterator>::into_iter(&meta.filestore_requests)"]
-    if not it_ok:
-        problems.append("loop does not iterate `&meta.filestore_requests` directly: %s" % [expr_str(x) for x in iters])
-    meta = [expr_str(x) for x in ebf.var_defs("meta")]
-    if not all("self.metadata" in m for m in meta) or not meta:
-        problems.append("`meta` is not self.metadata: %s" % meta)
-
-    # process_request control-dependent on fail_rest == false; fail_rest written only from is_fail() there
-    def track(key):
-        return key[0] == "val" and key[1] == "fail_rest"
-
-    fl = Flow(ctx.prog, ctx.mods, f, track)
     pr = list(call_sites([f], ends("FileStore::process_request"), ctx.prog))
     if len(pr) != 1:
         raise Anchor("C13-Q2", "single process_request call in finalize_receive")
     _, pb, pt, _, _ = pr[0]
-    good, w = all_worlds_satisfy(fl.at_term(pb), lambda dw: val_in(dw, "fail_rest", {0}))
-    if not good:
-        problems.append("process_request is not guarded by fail_rest == false (%s)" % world_str(w))
-    req_arg = expr_str(eb.call(pb, pt)[3][1]).lstrip("&")
-    if req_arg != "request":
-        problems.append("process_request argument is %s, not the loop's request" % req_arg)
-    req_def = [expr_str(x) for x in ebf.var_defs("request")]
-    if not req_def or not all("Iterator>::next(&mut iter)" in x and "@Some.0" in x for x in req_def):
-        problems.append("`request` is not the element yielded by the loop iterator: %s" % req_def)
-    writes = []
-    for _f, b, j, s, ps in field_writes([f], "fail_rest"):
-        e = eb.rvalue(s["rv"]) if j >= 0 else eb.call(b, s)
-        writes.append((b, s["span"]["line"], expr_str(e)))
-    inits = [x for x in writes if x[2] == "const(0)"]
-    others = [x for x in writes if x[2] != "const(0)"]
-    if len(inits) != 1:
-        problems.append("fail_rest is initialised %d times" % len(inits))
-    for b, line, txt in others:
-        if not txt.startswith("FileStoreStatus::is_fail(&rep.action_and_status") and "is_fail(&rep.action_and_status)" not in txt:
-            problems.append("fail_rest written from %s at L%d" % (txt, line))
-        elif b not in f.reachable(pt["target"]) or not _dominated_by(f, pb, b):
-            problems.append("fail_rest update at L%d is not in the arm that processed the request" % line)
-    repd = [expr_str(x) for x in eb.var_defs("rep")]
-    if not repd or not all(x.startswith("FileStore>::process_request(") or "process_request(" in x for x in repd):
-        problems.append("`rep` is not the process_request result: %s" % repd)
-    # the not-performed arm uses the same request
+
+    def var_of(e):
+        e = simp(e)
+        return e[1] if e[0] == "place" and re.match(r"^\w+$", e[1]) else None
+
+    # ---- the request iterator family: slice::iter(&meta.filestore_requests) / into_iter(&meta.filestore_requests),
+    # possibly moved, re-borrowed (by_ref, &mut) or passed through into_iter; any other adaptor leaves the family
+    def origin(e, depth=0):
+        e = simp(e)
+        if depth > 8:
+            return "?"
+        v = var_of(e)
+        if v is not None:
+            ds = eb.var_defs(v)
+            outs = {origin(d, depth + 1) for d in ds}
+            return outs.pop() if len(outs) == 1 else "?"
+        if e[0] == "call":
+            last = (callee_name(e) or "").split("::")[-1]
+            if last in ("into_iter", "by_ref") and len(e[3]) == 1:
+                return origin(e[3][0], depth + 1)
+            if last == "iter" and len(e[3]) == 1 and (callee_name(e) or "").endswith("slice::iter"):
+                return origin(e[3][0], depth + 1)
+            return "?"
+        if e[0] == "place":
+            m = re.match(r"^(\w+)\.filestore_requests$", e[1])
+            if m:
+                md = [sstr(x) for x in eb.var_defs(m.group(1))]
+                if md and all(x == "self.metadata@Some.0" for x in md):
+                    return "self.metadata.filestore_requests"
+            if e[1] == "self.metadata@Some.0.filestore_requests":
+                return "self.metadata.filestore_requests"
+        return "?"
+
+    # next() sites on the family: block -> (Some-edge target, None-edge targets, element variable names)
+    nexts = {}
+    for b, t in f.all_calls():
+        e = eb.call(b, t)
+        if (callee_name(e) or "").split("::")[-1] == "next" and len(e[3]) == 1 and origin(e[3][0]) == "self.metadata.filestore_requests":
+            nexts[b] = {"line": t["span"]["line"], "some": None, "none": []}
+    if not nexts:
+        yield bad("C13-Q2", "finalize_receive:loop:0", at(f, pt["span"]["line"]), "the request given to process_request (%s) is not yielded by a plain in-order iterator over meta.filestore_requests (an adaptor, another list or an index is used)" % sstr(eb.call(pb, pt)[3][1])[:120])
+        return
+    for b in f.live_blocks():
+        t = f.blocks[b]["term"]
+        if t["k"] != "switch":
+            continue
+        d = simp(eb.operand(t["discr"]))
+        if d[0] == "discr" and d[1][0] == "call":
+            loc = d[1][4]
+            nb = loc[0] if isinstance(loc, tuple) else None
+            if nb in nexts:
+                for v, tb in t["targets"]:
+                    if v == 1:
+                        nexts[nb]["some"] = tb
+                    else:
+                        nexts[nb]["none"].append((b, tb))
+                nexts[nb]["switch"] = b
+    if any(n["some"] is None for n in nexts.values()):
+        raise Anchor("C13-Q2", "Some/None branch of the iterator's next()")
+
+    def element_of(e):
+        """The next() site a request expression is the element of, else None."""
+        e = simp(e)
+        v = var_of(e)
+        if v is not None:
+            ds = eb.var_defs(v)
+            outs = {element_of(d) for d in ds}
+            return outs.pop() if len(outs) == 1 else None
+        if e[0] == "proj" and e[2].startswith("@Some.0") and e[1][0] == "call":
+            loc = e[1][4]
+            nb = loc[0] if isinstance(loc, tuple) else None
+            return nb if nb in nexts else None
+        return None
+
+    p_elem = element_of(eb.call(pb, pt)[3][1])
+    if p_elem is None:
+        problems.append("process_request argument %s is not the element yielded by an in-order iterator over meta.filestore_requests" % sstr(eb.call(pb, pt)[3][1]))
+    dom = dominators(f)
+
+    # ---- is_fail-derived branches: a switch on is_fail(result of the process_request call) or on a
+    # flag whose only definitions are `false` outside the loop and that is_fail() after the call
+    def is_fail_of_p(e):
+        e = simp(e)
+        if e[0] != "call" or (callee_name(e) or "").split("::")[-1] != "is_fail" or not e[3]:
+            return False
+        a = simp(e[3][0])
+        if a[0] != "place":
+            return False
+        m = re.match(r"^(\w+)\.action_and_status$", a[1])
+        if not m:
+            return False
+        ds = [simp(x) for x in eb.var_defs(m.group(1))]
+        return bool(ds) and all(x[0] == "call" and isinstance(x[4], tuple) and x[4][0] == pb for x in ds)
+
+    after_p = f.reachable(pt["target"])
+
+    def flag_ok(name):
+        inits = 0
+        for vn, l, proj in f.var_places:
+            if vn != name or proj:
+                continue
+            for d in f.defs(l):
+                if d[0] == "assign":
+                    e = simp(eb.rvalue(d[3]))
+                    if e[0] == "const" and e[1] in (0, False) and d[1] not in after_p:
+                        inits += 1
+                        continue
+                    if is_fail_of_p(e) and pb in dom.get(d[1], ()):
+                        continue
+                    return False
+                elif d[0] == "call":
+                    if is_fail_of_p(eb.call(d[1], d[2])) and pb in dom.get(d[1], ()):
+                        continue
+                    return False
+                else:
+                    return False
+        return True
+
+    fail_sw = {}
+    for b in f.live_blocks():
+        t = f.blocks[b]["term"]
+        if t["k"] != "switch":
+            continue
+        d = simp(eb.operand(t["discr"]))
+        v = var_of(d)
+        if (v is not None and any(is_fail_of_p(x) for x in eb.var_defs(v)) and flag_ok(v)) or is_fail_of_p(d):
+            ok_edges = [tb for val, tb in t["targets"] if val == 0]
+            fail_edges = [tb for val, tb in t["targets"] if val != 0] + [t["otherwise"]]
+            fail_sw[b] = (ok_edges, fail_edges)
+    if not fail_sw:
+        problems.append("no branch on is_fail() of the response just produced")
+
+    def reach(starts, cut_edges, stop=()):
+        seen = set()
+        st = list(starts)
+        while st:
+            b = st.pop()
+            if b in seen:
+                continue
+            seen.add(b)
+            if b in stop:
+                continue
+            for s2, _lab in f.succs(b):
+                if (b, s2) in cut_edges:
+                    continue
+                st.append(s2)
+        return seen
+
+    not_failed_edges = {(b, tb) for b, (oe, fe) in fail_sw.items() for tb in oe}
+    failed_edges = {(b, tb) for b, (oe, fe) in fail_sw.items() for tb in fe}
+    none_edges = {e for n in nexts.values() for e in n["none"]}
+    # (b) nothing is processed after a failure: with the not-failed edges removed the call cannot be reached again
+    if pb in reach([pt["target"]], not_failed_edges):
+        problems.append("process_request can run again without a not-failed test of the previous response's is_fail()")
+    # (c) not_performed only after a failure: with the failed edges and the iterator-exhausted edges removed it is unreachable
     np_sites = list(call_sites([f], ends("FileStoreResponse::not_performed"), ctx.prog))
-    for _f, b, t, d, r in np_sites:
-        a = expr_str(eb.call(b, t)[3][0]).lstrip("&")
-        if a != "request":
-            problems.append("not_performed argument is %s" % a)
-        good, w = all_worlds_satisfy(fl.at_term(b), lambda dw: val_in(dw, "fail_rest", {1}))
-        if not good:
-            problems.append("not_performed response not under fail_rest == true")
     if not np_sites:
         problems.append("no not_performed response for skipped requests")
-    # one push of the response per iteration: every path from the loop body entry back to the
-    # loop head passes out.push(response)
-    pushes = [b for _f, b, t, d, r in call_sites([f], ends("Vec::push"), ctx.prog) if expr_str(eb.call(b, t)[3][0]) == "&mut out" and expr_str(eb.call(b, t)[3][1]) == "response"]
-    if not pushes:
-        problems.append("no out.push(response)")
+    live_nofail = reach([0], failed_edges | none_edges)
+    np_elems = {}
+    for _f, b, t, d, r in np_sites:
+        if b in live_nofail:
+            problems.append("a not_performed response at L%d can be produced although no earlier request failed" % t["span"]["line"])
+        el = element_of(eb.call(b, t)[3][0])
+        if el is None:
+            problems.append("not_performed argument %s is not the element yielded by the request iterator" % sstr(eb.call(b, t)[3][0]))
+        np_elems[b] = el
+    # (d) one response per request: every push onto the response vector carries the response for the
+    # element of the iteration it is in; every Some edge reaches a push before the next next()/the end
+    fw = [(b, s["span"]["line"], simp(eb.rvalue(s["rv"]))) for _f, b, j, s, ps in field_writes([f], "self.filestore_response") if j >= 0]
+    outv = {var_of(x[2]) for x in fw}
+    if not fw or None in outv or len(outv) != 1:
+        problems.append("self.filestore_response is not assigned one collected vector: %s" % [expr_str(x[2])[:60] for x in fw])
+        outv = None
     else:
-        # the Some-edge target of the iterator's next()
-        body = None
-        head = None
-        for b in f.live_blocks():
-            t = f.blocks[b]["term"]
-            if t["k"] == "switch":
-                txt = expr_str(ebf.operand(t["discr"]))
-                if txt.startswith("discr(Iterator>::next(&mut iter))"):
-                    head = b
-                    body = [tb for v, tb in t["targets"] if v == 1]
-        if not body:
-            problems.append("loop head (iterator next) not found")
-        else:
-            r = f.reachable(body[0], avoid=set(pushes) | _error_exit_blocks(ctx, f))
-            if head in r:
-                problems.append("a loop iteration can complete without pushing a response")
-        respd = [expr_str(x) for x in eb.var_defs("response")]
-        if sorted(set(respd)) != ["FileStoreResponse::not_performed(&request)", "rep"]:
-            problems.append("`response` is not (rep | not_performed(request)): %s" % respd)
-    # self.filestore_response = out
-    fw = [(s["span"]["line"], expr_str(eb.rvalue(s["rv"]))) for _f, b, j, s, ps in field_writes([f], "self.filestore_response") if j >= 0]
-    if not fw or not all(x[1] == "out" for x in fw):
-        problems.append("self.filestore_response is not assigned the collected responses: %s" % fw)
+        outv = outv.pop()
+        od = [sstr(x) for x in eb.var_defs(outv)]
+        if not od or not all(re.match(r"^(Vec::new\(\)|Vec::with_capacity\(.*\))$", x) for x in od):
+            problems.append("the response vector does not start empty: %s" % od)
+
+    def response_elem(e, depth=0):
+        """next() site whose element this response answers (process_request / not_performed of it)."""
+        e = simp(e)
+        v = var_of(e)
+        if v is not None and depth < 4:
+            outs = {response_elem(x, depth + 1) for x in eb.var_defs(v)}
+            return outs.pop() if len(outs) == 1 else None
+        if e[0] == "call":
+            last = (callee_name(e) or "").split("::")[-1]
+            if last == "process_request" and len(e[3]) == 2:
+                return element_of(e[3][1])
+            if last == "not_performed" and len(e[3]) == 1:
+                return element_of(e[3][0])
+        return None
+
+    pushes = {}
+    if outv:
+        for b, t in f.all_calls():
+            e = eb.call(b, t)
+            last = (callee_name(e) or "").split("::")[-1]
+            if not e[3] or sstr(e[3][0]) != outv or simp(e[3][0])[0] != "place":
+                continue
+            if last in ("len", "is_empty", "iter", "clone", "deref"):
+                continue
+            if last != "push":
+                problems.append("the response vector is modified by %s at L%d" % (last, t["span"]["line"]))
+                continue
+            el = response_elem(e[3][1])
+            if el is None:
+                problems.append("the value pushed at L%d (%s) is not the response to the request of this iteration" % (t["span"]["line"], sstr(e[3][1])[:100]))
+            pushes[b] = el
+        if not pushes:
+            problems.append("no response is pushed")
+        nb_all = set(nexts)
+        ends_ = {b for b, line, e in fw}
+        for nb, n in nexts.items():
+            mine = {b for b, el in pushes.items() if el == nb}
+            # from the Some edge, reaching another next() or the final assignment without a push for this element
+            r = reach([n["some"]], set(), stop=mine | _error_exit_blocks(ctx, f))
+            r -= mine
+            if (r & nb_all) or (r & ends_):
+                problems.append("the request yielded at L%d can go without a response (a path reaches the next request or the end without a push)" % n["line"])
+            # from after a push for this element, another push before the next next()
+            for pbk in mine:
+                r2 = reach([f.blocks[pbk]["term"]["target"]], set(), stop=nb_all)
+                if r2 & set(pushes):
+                    problems.append("two responses can be pushed for the request yielded at L%d" % n["line"])
     if problems:
-        for i, p in enumerate(problems):
-            yield bad("C13-Q2", "finalize_receive:loop:%d" % i, at(f, pt["span"]["line"]), p)
+        for i, p_ in enumerate(problems):
+            yield bad("C13-Q2", "finalize_receive:loop:%d" % i, at(f, pt["span"]["line"]), p_)
     else:
-        yield ok("C13-Q2", "finalize_receive:loop", at(f, pt["span"]["line"]), {"iterator": "&meta.filestore_requests", "fail_rest_writers": writes, "push_blocks": pushes})
+        yield ok("C13-Q2", "finalize_receive:loop", at(f, pt["span"]["line"]), {"iterator": "meta.filestore_requests", "next_sites": sorted(n["line"] for n in nexts.values()), "is_fail_branches": sorted(fail_sw), "push_blocks": sorted(pushes)})
 
 
 @rule("C13", "C13-Q3", 4, "the responses given to the receiving user, put in the Finished PDU and handed to the sending user have the same origin")
@@ -1118,6 +1271,10 @@ def _closure_guard_form(ctx, f, e):
                 if dflt[0] == "const" and dflt[1] in (0, False):
                     return ("ok", "metadata.map_or(false, closure_requested)")
                 return ("bad", "closure is assumed requested when no metadata is held (default %s)" % expr_str(dflt))
+    if re.match(r"^\(?(Option::as_ref\()?self\.metadata\)?\)?@Some\.0(\.\*)*\.closure_requested$", txt):
+        # the flag of the metadata bound by `if let Some(m)` / `match .. { Some(m) => .. }`: the Some
+        # projection exists only on the path where metadata is held
+        return ("ok", "if let Some(m) = metadata { m.closure_requested }")
     if "closure_requested" in txt:
         return ("bad", "unrecognised closure test %s" % txt[:120])
     return None
